@@ -217,14 +217,24 @@ pub struct AymPrecise { _p: u8 }
 pub struct MixerRest { _p: u8 }
 
 impl<FB> ZXScreen<FB> {
+    /// ghost log of `update(rel_addr, bank, data)` calls (the shadow-of-display-memory feed, C08)
+    pub uninterp spec fn updates(&self) -> Seq<(u16, usize, u8)>;
     #[verifier::external_body]
-    pub fn new_frame(&mut self) { unimplemented!() }
+    pub fn new_frame(&mut self)
+        ensures final(self).updates() == old(self).updates(),
+    { unimplemented!() }
     #[verifier::external_body]
-    pub fn process_clocks(&mut self, clocks: usize) { unimplemented!() }
+    pub fn process_clocks(&mut self, clocks: usize)
+        ensures final(self).updates() == old(self).updates(),
+    { unimplemented!() }
     #[verifier::external_body]
-    pub fn switch_bank(&mut self, bank: usize) { unimplemented!() }
+    pub fn switch_bank(&mut self, bank: usize)
+        ensures final(self).updates() == old(self).updates(),
+    { unimplemented!() }
     #[verifier::external_body]
-    pub fn update(&mut self, rel_addr: u16, bank: usize, data: u8) { unimplemented!() }
+    pub fn update(&mut self, rel_addr: u16, bank: usize, data: u8)
+        ensures final(self).updates() == old(self).updates().push((rel_addr, bank, data)),
+    { unimplemented!() }
 }
 impl<FB> ZXBorder<FB> {
     #[verifier::external_body]
@@ -659,6 +669,10 @@ impl<H: Host> ZXController<H> {
             final(self).current_port_7ffd == old(self).current_port_7ffd,
             final(self).paging_enabled == old(self).paging_enabled,
             final(self).machine == old(self).machine,
+            // C08: every RAM write through any window is forwarded to the screen with (offset in bank, bank, data)
+            old(self).memory.is_ram(addr) ==> final(self).screen.updates() == old(self).screen.updates().push(
+                ((addr as int % 16384) as u16, (old(self).memory.cell(addr).0->Ram_0) as usize, data)),
+            !old(self).memory.is_ram(addr) ==> final(self).screen.updates() == old(self).screen.updates(),
 //@ end
 
 //@ fn rustzx-core/src/zx/controller.rs impl <H:Host>ZXController<H>::set_border_color props C07 C09
